@@ -51,6 +51,7 @@ type ExecCfg struct {
 	PermSites     bool     `json:"perm_sites"`
 	PermListings  bool     `json:"perm_listings"`
 	SharedDeps    bool     `json:"shared_deps"`
+	ListGenerated bool `json:"list_generated,omitempty"` // the file source also lists (and serves) the committed *.j5s.proto outputs next to their sources
 	RealReader    bool     `json:"real_file_reader,omitempty"` // real protobuild.fileReader over an in-memory fs.FS (no read faults)
 	Ops           []Op     `json:"ops"`
 	MaskSites     []string `json:"mask_sites,omitempty"`     // sites forced to identity order
@@ -137,6 +138,7 @@ func (e *execState) permStrings(site string, in []string) []string {
 
 type memSource struct {
 	mu        sync.Mutex // the code under test may read files from several goroutines
+	generated map[string]string // committed generator outputs (path -> text), listed when non-nil
 	prog      *Program
 	ex        *execState
 	failNth   int // >0: the failNth-th next read fails (transient)
@@ -162,6 +164,9 @@ func (m *memSource) GetLocalFile(_ context.Context, name string) ([]byte, error)
 	}
 	src, ok := m.prog.Files[name]
 	if !ok {
+		if g, ok := m.generated[name]; ok {
+			return []byte(g), nil
+		}
 		return nil, fmt.Errorf("%s: %w", name, fs.ErrNotExist)
 	}
 	return []byte(src), nil
@@ -186,6 +191,19 @@ func (m *memSource) ListSourceFiles(_ context.Context, root string) ([]string, e
 			continue
 		}
 		files = append(files, n)
+	}
+	if m.generated != nil {
+		// a file source that does not filter generated files itself (the interface does not ask it
+		// to; sourceResolver.listPackageFiles is there to drop them): repositories commit them
+		var gen []string
+		for n := range m.generated {
+			if strings.HasPrefix(n, root+"/") {
+				gen = append(gen, n)
+			}
+		}
+		sort.Strings(gen)
+		files = append(files, gen...)
+		sort.Strings(files)
 	}
 	return m.ex.permStrings("listing:files:"+root, files), nil
 }
@@ -422,6 +440,19 @@ func runExec(p *Program, ref Reference, cfg ExecCfg, stats *Stats) (*Violation, 
 			return s, nil
 		}
 		src := &memSource{prog: p, ex: ex}
+		if cfg.ListGenerated {
+			src.generated = map[string]string{}
+			for _, outs := range ref {
+				for _, f := range outs {
+					if strings.HasSuffix(f.Path, ".j5s.proto") && !strings.HasPrefix(f.Text, "<<") {
+						src.generated[f.Path] = f.Text
+					}
+				}
+			}
+			if stats != nil {
+				stats.Probes["sets_listing_committed_generated_files"]++
+			}
+		}
 		deps := sharedDeps
 		if deps == nil {
 			deps = newMemDeps(p, ex)
@@ -648,6 +679,7 @@ func genExecCfg(p *Program, seed uint64) ExecCfg {
 	}
 	cfg.SharedDeps = rng.Bool(0.3)
 	cfg.RealReader = rng.Bool(0.2)
+	cfg.ListGenerated = !cfg.RealReader && rng.Bool(0.2)
 	cfg.Ops = genOps(p, cfg.Mode, rng)
 	return cfg
 }
